@@ -277,8 +277,8 @@ func (c *cx) MM(i int) []map[int64]int64 {
 	}
 	return c.live[i].([]map[int64]int64)
 }
-func (c *cx) Z(i int) int64 { return c.a[i].Z }
-func (c *cx) I(i int) int   { return int(c.a[i].Z) }
+func (c *cx) Z(i int) int64    { return c.a[i].Z }
+func (c *cx) I(i int) int      { return int(c.a[i].Z) }
 func (c *cx) Ints(i int) []int { return c.matInts(i) }
 
 // after re-reads every materialised argument (same printing as the inputs: nil stays nil).
@@ -334,9 +334,9 @@ func reg(name, shape string, nres int, call func(c *cx) []Val, law func(a, res, 
 	byName[name] = d
 	return d
 }
-func (d *fnDef) ip() *fnDef                          { d.inplace = true; return d }
+func (d *fnDef) ip() *fnDef                            { d.inplace = true; return d }
 func (d *fnDef) onlyCoqIf(f func(a []Val) bool) *fnDef { d.coq = f; return d }
-func (d *fnDef) orc() *fnDef                         { d.oracle = true; return d }
+func (d *fnDef) orc() *fnDef                           { d.oracle = true; return d }
 
 // returnsArg: by its code and its tests the helper hands back argument #0 itself when there is nothing to remove
 func (d *fnDef) returnsArg() *fnDef { d.alias = aliasSelf; return d }
@@ -504,7 +504,7 @@ func malformed(d *fnDef, a []Val) bool {
 		}
 		if i < len(parts) {
 			switch parts[i] {
-			case "n", "lo", "hi":
+			case "n", "nb", "lo", "hi":
 				if v.Z <= 0 {
 					return true
 				}
